@@ -194,6 +194,93 @@ func decorate(t *rapid.T, doc *jv.V, draft7 bool) (*jv.V, []string) {
 	return d, added
 }
 
+// requiredPropertySites lists, through chains of "properties" from the root, the property
+// subschemas whose name is also listed in the same schema object's "required".
+type reqSite struct {
+	parent *jv.V
+	name   string
+	path   []string // property names from the root to the parent
+}
+
+func requiredPropertySites(doc *jv.V) []reqSite {
+	var out []reqSite
+	var walk func(v *jv.V, path []string, depth int)
+	walk = func(v *jv.V, path []string, depth int) {
+		if v == nil || v.K != jv.Obj || depth > 4 {
+			return
+		}
+		props := v.Get("properties")
+		if props == nil || props.K != jv.Obj {
+			return
+		}
+		req := v.Get("required")
+		for _, m := range props.O {
+			if req != nil && req.K == jv.Arr {
+				for _, r := range req.A {
+					if r.K == jv.Str && r.S == m.K {
+						out = append(out, reqSite{v, m.K, path})
+					}
+				}
+			}
+			walk(m.V, append(append([]string{}, path...), m.K), depth+1)
+		}
+	}
+	walk(doc, nil, 0)
+	return out
+}
+
+// decorateRequiredProperty puts a non-asserting keyword on a property subschema that the
+// parent requires, and returns an instance (derived from inst) that lacks exactly that property.
+func decorateRequiredProperty(t *rapid.T, doc *jv.V, inst *jv.V) (string, *jv.V) {
+	sites := requiredPropertySites(doc)
+	if len(sites) == 0 {
+		return "", nil
+	}
+	site := sites[rapid.IntRange(0, len(sites)-1).Draw(t, "reqsite")]
+	props := site.parent.Get("properties")
+	sub := props.Get(site.name)
+	if sub.K != jv.Obj {
+		if !sub.B {
+			return "", nil
+		}
+		sub = jv.ObjV()
+		props.Set(site.name, sub)
+	}
+	kw := rapid.SampledFrom([]string{"default", "default", "examples", "title", "readOnly", "deprecated", "format"}).Draw(t, "reqkw")
+	if sub.Has(kw) {
+		return "", nil
+	}
+	switch kw {
+	case "default":
+		sub.Set(kw, jv.Gen(jv.Opts{MaxDepth: 1}).Draw(t, "defv"))
+	case "examples":
+		sub.Set(kw, jv.ArrV(jv.NumV("1")))
+	case "title", "format":
+		sub.Set(kw, jv.StrV("email"))
+	default:
+		sub.Set(kw, jv.BoolV(true))
+	}
+	// an instance that lacks the property at that place
+	out := inst.Clone()
+	cur := out
+	for _, k := range site.path {
+		if cur.K != jv.Obj {
+			return kw, nil
+		}
+		nx := cur.Get(k)
+		if nx == nil {
+			nx = jv.ObjV()
+			cur.Set(k, nx)
+		}
+		cur = nx
+	}
+	if cur.K != jv.Obj {
+		return kw, nil
+	}
+	cur.Del(site.name)
+	return kw + "@required-property", out
+}
+
 func checkC18(c *c18Case, rec *ev.Recorder) *failure {
 	base, deco := c.Schema.JSON(), c.Decorated.JSON()
 	return guard(func() *failure {
@@ -245,7 +332,37 @@ func TestC18(t *testing.T) {
 		c.Schema = sgen.Draw(t, sgen.Opts{Draft: d, MaxDepth: 3})
 		c.Instances = sgen.Instances(t, c.Schema, 4)
 		stripUnsafeMultipleOf(c.Schema, c.Instances)
+		wantReq := rapid.IntRange(0, 2).Draw(t, "reqdeco") == 0
+		if wantReq && c.Schema.K == jv.Obj && !c.Schema.Has("$ref") && len(requiredPropertySites(c.Schema)) == 0 {
+			// make sure the base schema has a required property that also has a property subschema
+			name := rapid.SampledFrom(jv.KeyPool).Draw(t, "reqname")
+			props := c.Schema.Get("properties")
+			if props == nil || props.K != jv.Obj {
+				props = jv.ObjV()
+				c.Schema.Set("properties", props)
+			}
+			if !props.Has(name) {
+				props.Set(name, jv.ObjV())
+			}
+			req := c.Schema.Get("required")
+			if req == nil || req.K != jv.Arr {
+				req = &jv.V{K: jv.Arr}
+				c.Schema.Set("required", req)
+			}
+			req.A = append(req.A, jv.StrV(name))
+		}
 		c.Decorated, c.Added = decorate(t, c.Schema, c.Draft7)
+		if wantReq && c.Decorated.K == jv.Obj {
+			// aim one decoration at a property that its parent requires, and add an instance
+			// lacking exactly that property (a non-asserting keyword must not stand in for it)
+			base := sgen.Satisfy(t, c.Schema, c.Schema, 3)
+			if kw, inst := decorateRequiredProperty(t, c.Decorated, base); kw != "" {
+				c.Added = append(c.Added, kw)
+				if inst != nil {
+					c.Instances = append(c.Instances, inst, base)
+				}
+			}
+		}
 		for _, a := range c.Added {
 			low := false
 			for _, s := range standardKeywords {
